@@ -23,6 +23,12 @@ def run(chk):
     C = reduction_rules(chk, facts, ESOP, "xor", "C15.R", "std::ops::BitXor")
     cm = CubeModel(facts)
     env = Env(facts)
+    # real cubes over a two-variable window: ^ denotes XOR, ! the complement (analysis/window.py)
+    from ..window import window_op, op_forms, pick_forms
+    for trait, opname, shapes in (("std::ops::BitXor", "xor", ((1, 1), (2, 1), (1, 2), (0, 2), (2, 2))), ("std::ops::Not", "not", ((0,), (1,), (2,), (3,)))):
+        for bd, label in pick_forms(op_forms(facts, trait, ESOP), chk.tier):
+            for lens in shapes:
+                window_op(chk, "C15.W", facts, C, bd, label, lens, "xor", opname, WN=2, sample=(lens in ((2, 1), (2,))))
     # ------------------------------------------------------------------ Not: append the constant one
     nforms = 0
     for bd, sty, tr in facts.trait_impl_methods("std::ops::Not"):
